@@ -25,20 +25,18 @@ From NV Require FatNames.Model FatAlloc.Model.
 Import ListNotations.
 Open Scope N_scope.
 
-Module FA := NV.FatAlloc.Model.
-Module FN := NV.FatNames.Model.
 
 Definition name := list N.
 
 (* bits; cluster size; FatTable.limit = len(clusters) + 2; FAT32 root cluster (0 on FAT12/16);
    slots of the fixed root (FAT12/16) *)
 Record vparams := { vp_bits : N; vp_cs : N; vp_limit : N; vp_rootc : N; vp_rootcap : N }.
-Definition PP (V : vparams) : FA.fatp := FA.params_of_bits (vp_bits V).
+Definition PP (V : vparams) : FatAlloc.Model.fatp := FatAlloc.Model.params_of_bits (vp_bits V).
 
 Record entry := { e_name : name; e_alias : name; e_attr : N; e_size : N; e_clu : N; e_nlfn : N }.
 Inductive item := Live (e : entry) | Dead.
 Record dirrec := { d_items : list item; d_dot : N; d_dotdot : N }.
-Record vol := { v_fat : FA.fat; v_dirs : list (N * dirrec) }.
+Record vol := { v_fat : FatAlloc.Model.fat; v_dirs : list (N * dirrec) }.
 
 Definition is_dir (e : entry) : bool := negb (N.land (e_attr e) 16 =? 0).
 Definition nslots (e : entry) : N := e_nlfn e + 1.
@@ -77,7 +75,7 @@ Fixpoint drop_dir (ds : list (N * dirrec)) (id : N) : list (N * dirrec) :=
 Definition get_dir (s : vol) (id : N) : dirrec :=
   match find_dir (v_dirs s) id with Some d => d | None => empty_dir end.
 Definition items_of (s : vol) (id : N) : list item := d_items (get_dir s id).
-Definition set_fat (s : vol) (f : FA.fat) : vol := {| v_fat := f; v_dirs := v_dirs s |}.
+Definition set_fat (s : vol) (f : FatAlloc.Model.fat) : vol := {| v_fat := f; v_dirs := v_dirs s |}.
 Definition set_items (s : vol) (id : N) (l : list item) : vol :=
   let d := get_dir s id in
   {| v_fat := v_fat s;
@@ -111,7 +109,7 @@ Notation limit := (vp_limit V).
 
 (* ---------------- FatDirectory look-ups over the decoded entries ---------------- *)
 (* `lfn.upper() == uname or sfn == uname`; [k] is already upper-cased *)
-Definition hit (k : name) (e : entry) : bool := FN.beq (upper (e_name e)) k || FN.beq (e_alias e) k.
+Definition hit (k : name) (e : entry) : bool := FatNames.Model.beq (upper (e_name e)) k || FatNames.Model.beq (e_alias e) k.
 Fixpoint lookup (k : name) (l : list item) : option entry :=
   match l with
   | [] => None
@@ -137,8 +135,8 @@ Definition set_val (attr size clu : N) (e : entry) : entry :=
      e_nlfn := e_nlfn e |}.
 
 (* ---------------- chains ---------------- *)
-Definition chain_of (f : FA.fat) (c : N) : list N :=
-  FA.chain P (FA.ftbl f) (S (length (FA.ftbl f))) c.
+Definition chain_of (f : FatAlloc.Model.fat) (c : N) : list N :=
+  FatAlloc.Model.chain P (FatAlloc.Model.ftbl f) (S (length (FatAlloc.Model.ftbl f))) c.
 Definition dir_start (id : N) : N := if id =? 0 then vp_rootc V else id.     (* FatDirectory.cluster *)
 Definition dir_cap (id : N) : option N :=
   if (id =? 0) && negb (vp_bits V =? 32) then Some (vp_rootcap V) else None.
@@ -153,9 +151,9 @@ Definition try_poke (s : vol) (id imax : N) : vol * bool :=
   | Some cap => (s, imax <? cap)
   | None =>
     let m := chain_of (v_fat s) (dir_start id) in
-    let st := {| FA.sfat := v_fat s; FA.map := m; FA.size := cs * FA.len m; FA.pos := 32 * imax |} in
-    let r := FA.write_clusters P cs limit 32 st in
-    (set_fat s (FA.sfat (fst r)), snd r)
+    let st := {| FatAlloc.Model.sfat := v_fat s; FatAlloc.Model.map := m; FatAlloc.Model.size := cs * FatAlloc.Model.len m; FatAlloc.Model.pos := 32 * imax |} in
+    let r := FatAlloc.Model.write_clusters P cs limit 32 st in
+    (set_fat s (FatAlloc.Model.sfat (fst r)), snd r)
   end.
 
 (* __setitem__, new name: records + EOF record written back to front at the end of the groups;
@@ -171,15 +169,15 @@ Definition dir_append (s : vol) (id : N) (e : entry) : vol * res unit :=
     if snd a2 then (set_items (fst a2) id (it1 ++ [Live e]), Ok tt)
     else (set_items (fst a2) id it1, Err OSError_ENOSPC).
 
-(* (lfn text, sfn text) of every group, as _get_unique_sfn sees them *)
+(* (lfn.upper(), sfn text) of every group, as _get_unique_sfn matches them *)
 Definition existing_of (id : N) (l : list item) : list (name * name) :=
   (if id =? 0 then [] else [([46], [46]); ([46; 46], [46; 46])])
-  ++ List.map (fun e => (e_name e, e_alias e)) (lives l).
+  ++ List.map (fun e => (upper (e_name e), e_alias e)) (lives l).
 Definition make_entry (id : N) (l : list item) (nm : name) (attr clu : N) : res entry :=
-  do x <- FN.get_names nm (upper (lstrip_dots nm)) (existing_of id l);
+  do x <- FatNames.Model.get_names nm (upper (lstrip_dots nm)) (existing_of id l);
   let '(lfn, sfn8, ext3, _) := x in
   Ok {| e_name := nm; e_alias := alias_text sfn8 ext3; e_attr := attr; e_size := 0; e_clu := clu;
-        e_nlfn := FN.len lfn / 26 |}.
+        e_nlfn := FatNames.Model.len lfn / 26 |}.
 
 (* index[nm] = entry(attr, size, clu) *)
 Definition setitem (s : vol) (id : N) (nm : name) (attr size clu : N) : vol * res unit :=
@@ -219,7 +217,7 @@ Definition resolve (s : vol) (parts : list name) : res rres := walk s RRoot part
 Definition leaf (parts : list name) : name := last parts [].
 Definition parent (parts : list name) : list name := removelast parts.
 (* FatPath.__init__ *)
-Definition valid_parts (parts : list name) : bool := forallb FN.lfn_valid parts.
+Definition valid_parts (parts : list name) : bool := forallb FatNames.Model.lfn_valid parts.
 
 (* ---------------- open() and one FatFile session ---------------- *)
 Inductive omode := MW | MX | MA | MRW.               (* 'wb' 'xb' 'ab' 'r+b' *)
@@ -227,46 +225,58 @@ Inductive omode := MW | MX | MA | MRW.               (* 'wb' 'xb' 'ab' 'r+b' *)
    write of n bytes, at the position the mode leaves or after seek(p); truncate(n) *)
 Inductive fact := ANone | ATouch | AWrite (p : option N) (n : N) | ATrunc (n : N).
 
-Definition write_back (s : vol) (idx : N) (e : entry) (st : FA.fstate) : vol :=
+Definition write_back (s : vol) (idx : N) (e : entry) (st : FatAlloc.Model.fstate) : vol :=
   (* _set_size / _set_mtime: self._index[self._get_key()] = entry, the key is the 8.3 name *)
   set_items s idx (upd_item (upper (e_alias e))
-                            (fun x => set_val (e_attr e) (FA.size st) (hd 0 (FA.map st)) x)
+                            (fun x => set_val (e_attr e) (FatAlloc.Model.size st) (hd 0 (FatAlloc.Model.map st)) x)
                             (items_of s idx)).
 
-Definition file_session (s : vol) (idx : N) (e : entry) (m : omode) (a : fact) : vol * res unit :=
-  let st0 := {| FA.sfat := v_fat s; FA.map := chain_of (v_fat s) (e_clu e);
-                FA.size := e_size e; FA.pos := 0 |} in
-  (* FatFile.__init__ *)
+(* the chain-level part of one session: FatFile.__init__, the action, close().
+   Result: (state after close, returned normally?, was the directory entry written back?) *)
+Definition session_act (st1 : FatAlloc.Model.fstate) (a : fact) : FatAlloc.Model.fstate * bool * bool :=
+  match a with
+  | ANone => (st1, true, false)
+  | ATouch => (st1, true, true)
+  | AWrite p n =>
+    let st := match p with Some q => FatAlloc.Model.seek q st1 | None => st1 end in
+    let r := FatAlloc.Model.write_clusters P cs limit n st in
+    (* the padding truncate() raises before the try/finally of write() *)
+    let padfail := (FatAlloc.Model.size st <? FatAlloc.Model.pos st) &&
+                   negb (is_ok (FatAlloc.Model.truncate P cs limit (FatAlloc.Model.pos st) st)) in
+    (fst r, snd r, negb padfail)
+  | ATrunc n =>
+    match FatAlloc.Model.truncate P cs limit n st1 with
+    | Ok st' => (st', true, negb (n =? FatAlloc.Model.size st1))
+    | Err _ => (st1, false, false)
+    end
+  end.
+Definition session_core (st0 : FatAlloc.Model.fstate) (m : omode) (a : fact)
+  : res (FatAlloc.Model.fstate * bool * bool) :=
   match (match m with
-         | MW | MX => FA.truncate P cs limit 0 st0
-         | MA => Ok (FA.seek (e_size e) st0)
+         | MW | MX => FatAlloc.Model.truncate P cs limit 0 st0
+         | MA => Ok (FatAlloc.Model.seek (FatAlloc.Model.size st0) st0)
          | MRW => Ok st0
          end) with
-  | Err x => (s, Err x)
+  | Err x => Err x
   | Ok st1 =>
-    let wb1 := match m with MW | MX => negb (e_size e =? 0) | _ => false end in
-    let '(st2, ok, wb2) :=
-      match a with
-      | ANone => (st1, true, false)
-      | ATouch => (st1, true, true)
-      | AWrite p n =>
-        let st := match p with Some q => FA.seek q st1 | None => st1 end in
-        let r := FA.write_clusters P cs limit n st in
-        (* the padding truncate() raises before the try/finally of write() *)
-        let padfail := (FA.size st <? FA.pos st) &&
-                       negb (is_ok (FA.truncate P cs limit (FA.pos st) st)) in
-        (fst r, snd r, negb padfail)
-      | ATrunc n =>
-        match FA.truncate P cs limit n st1 with
-        | Ok st' => (st', true, negb (n =? FA.size st1))
-        | Err _ => (st1, false, false)
-        end
-      end in
+    let wb1 := match m with MW | MX => negb (FatAlloc.Model.size st0 =? 0) | _ => false end in
+    let x := session_act st1 a in
+    let st2 := fst (fst x) in
     (* close() *)
-    let st3 := FA.close_release true st2 in
-    let wb3 := (FA.size st2 =? 0) && negb (match FA.map st2 with [] => true | _ => false end) in
-    let s1 := set_fat s (FA.sfat st3) in
-    let s2 := if wb1 || wb2 || wb3 then write_back s1 idx e st3 else s1 in
+    let st3 := FatAlloc.Model.close_release true st2 in
+    let wb3 := (FatAlloc.Model.size st2 =? 0) &&
+               negb (match FatAlloc.Model.map st2 with [] => true | _ => false end) in
+    Ok (st3, snd (fst x), wb1 || snd x || wb3)
+  end.
+
+Definition file_session (s : vol) (idx : N) (e : entry) (m : omode) (a : fact) : vol * res unit :=
+  let st0 := {| FatAlloc.Model.sfat := v_fat s; FatAlloc.Model.map := chain_of (v_fat s) (e_clu e);
+                FatAlloc.Model.size := e_size e; FatAlloc.Model.pos := 0 |} in
+  match session_core st0 m a with
+  | Err x => (s, Err x)
+  | Ok (st3, ok, wb) =>
+    let s1 := set_fat s (FatAlloc.Model.sfat st3) in
+    let s2 := if wb then write_back s1 idx e st3 else s1 in
     (s2, if ok then Ok tt else Err OSError_ENOSPC)
   end.
 
@@ -308,7 +318,7 @@ Definition create_file (s : vol) (parts : list name) (m : omode) := file_op s pa
 Definition set_size (s : vol) (parts : list name) (n : N) := file_op s parts MRW (ATrunc n).
 
 (* ---------------- unlink ---------------- *)
-Definition free_chain (s : vol) (c : N) : vol := set_fat s (FA.unlink_chain P (v_fat s) c).
+Definition free_chain (s : vol) (c : N) : vol := set_fat s (FatAlloc.Model.unlink_chain P (v_fat s) c).
 
 Definition unlink (s : vol) (parts : list name) : vol * res unit :=
   if negb (valid_parts parts) then (s, Err ValueError) else
@@ -342,13 +352,15 @@ Definition mkdir (s : vol) (parts : list name) : vol * res unit :=
       if negb (r_exists pr) then (s, Err FileNotFound)
       else if negb (r_isdir pr) then (s, Err NotADirectory)
       else
-        match FA.free_scan P (FA.ftbl (v_fat s)) limit (FA.hint_of (v_fat s)) with
+        match FatAlloc.Model.free_scan P (FatAlloc.Model.ftbl (v_fat s)) limit (FatAlloc.Model.hint_of (v_fat s)) with
         | [] => (s, Err OSError_ENOSPC)                    (* next(fs.fat.free()) *)
         | c :: _ =>
-          let s1 := set_fat s (FA.mark_end P (v_fat s) c) in   (* ... and the cluster is zeroed *)
+          let s1 := set_fat s (FatAlloc.Model.mark_end P (v_fat s) c) in   (* ... and the cluster is zeroed *)
           let x := setitem s1 (r_index pr) (leaf parts) 16 0 c in
           match snd x with
-          | Err e => (fst x, Err e)            (* the cluster stays marked: nothing refers to it *)
+          | Err OSError_ENOSPC =>              (* except OSError: fs.fat.mark_free(cluster); raise *)
+            (set_fat (fst x) (FatAlloc.Model.mark_free (v_fat (fst x)) c), Err OSError_ENOSPC)
+          | Err e => (fst x, Err e)
           | Ok _ => (new_dir (fst x) c (r_cluster pr), Ok tt)    (* '.' and '..' *)
           end
         end
@@ -436,7 +448,7 @@ Definition rename (s : vol) (src tgt : list name) : vol * res unit :=
                      else Ok tridx) with
               | Err e => (s, Err e)
               | Ok tidx =>
-                if (dir_start tidx =? dir_start sidx) && FN.beq (e_alias te) (e_alias se)
+                if (dir_start tidx =? dir_start sidx) && FatNames.Model.beq (e_alias te) (e_alias se)
                 then (s, Ok None)
                 else if is_dir te then (s, Err IsADirectory)
                 else if is_dir se then (s, Err NotADirectory)
